@@ -100,8 +100,12 @@ class Git:
         return int(result.stdout.strip())
 
     def rev_parse(self, commit_symbol: str) -> Optional[str]:
+        """
+        Resolves `commit_symbol` (hash, branch, tag, ...) to the hash of the commit
+        it refers to. Annotated tags are peeled to their commit.
+        """
         result = subprocess.run(
-            ["git", "rev-parse", commit_symbol],
+            ["git", "rev-parse", "--verify", "{}^{{commit}}".format(commit_symbol)],
             cwd=self._project_root,
             capture_output=True,
             text=True,
